@@ -10,12 +10,19 @@ import (
 
 func createLockFile(name string, perm os.FileMode) (LockFile, bool, error) {
 	for {
+		// Create the file exclusively to find out whether it existed: checking first and
+		// creating later would report a lock file removed in between (clean shutdown) as existing.
 		acquiredExisting := false
-		if _, err := os.Stat(name); err == nil {
+		f, err := os.OpenFile(name, os.O_RDWR|os.O_CREATE|os.O_EXCL, perm)
+		if os.IsExist(err) {
 			acquiredExisting = true
+			verifYield(1)
+			f, err = os.OpenFile(name, os.O_RDWR, perm)
+			if os.IsNotExist(err) {
+				// Removed by its owner meanwhile, start over.
+				continue
+			}
 		}
-		verifYield(1)
-		f, err := os.OpenFile(name, os.O_RDWR|os.O_CREATE, perm)
 		if err != nil {
 			return nil, false, err
 		}
